@@ -121,8 +121,29 @@ class Facts:
             if name in failed:
                 raise AnalysisBroken("instantiation driver `%s` does not compile against the current tree (a member that the tests never instantiate may not compile): %s" % (name, failed[name]))
             with open(os.path.join(self.dir, name + ".json")) as f:
-                self._loaded[name] = json.load(f)
+                data = json.load(f)
+            if getattr(self, "normalize", True) and not os.environ.get("VERIF_NO_NORMALIZE"):
+                from vlib import normalize
+                sys.path.insert(0, os.path.join(VERIF, "rules")) if os.path.join(VERIF, "rules") not in sys.path else None
+                for fn in data.get("functions", []):
+                    try:
+                        normalize.norm_function(fn)
+                    except RecursionError:
+                        pass
+            self._loaded[name] = data
         return self._loaded[name]
+
+    def raw(self):
+        """the same facts without the normalisation pass (for the path-complete abstract interpreters, which do not depend on
+        the form of the code and were validated on the exported AST as it is)"""
+        if getattr(self, "_raw", None) is None:
+            import copy
+            r = copy.copy(self)
+            r._loaded = {}
+            r.normalize = False
+            r._raw = r
+            self._raw = r
+        return self._raw
 
     def functions(self, names=None):
         """All exported function instances of the given drivers (default: all but bitpack)."""
